@@ -159,3 +159,75 @@ def _numeric(e) -> bool:
     if isinstance(e, ast.BinOp):
         return _numeric(e.left) and _numeric(e.right)
     return False
+
+
+CLASS_STATE_POSITIVE = """
+class M:
+    _json_options = {'survival': True}
+    @classmethod
+    def from_json(cls, data, dic):
+        optionals = cls._json_options
+        for option in optionals:
+            if option in data:
+                optionals[option] = data[option]
+        return cls(data['id'], **optionals)
+    @classmethod
+    def from_json_ok(cls, data, dic):
+        optionals = dict(cls._json_options)
+        optionals['survival'] = data.get('survival', True)
+        return cls(data['id'], **optionals)
+"""
+
+
+def class_state_mutations(fn: ast.FunctionDef):
+    """statements of a classmethod that change an object hanging off the class (`cls.X[...] = v`, `cls.X.update(...)`, `cls.X = v`, or the same through a local name bound to
+    `cls.X` without a copy): what one call leaves there is seen by every later call in the process."""
+    if not fn.args.args:
+        return []
+    c = fn.args.args[0].arg
+    if c not in ('cls',):
+        return []
+    alias = set()
+    for st in ast.walk(fn):
+        if isinstance(st, ast.Assign) and len(st.targets) == 1 and isinstance(st.targets[0], ast.Name) and isinstance(st.value, ast.Attribute) \
+                and isinstance(st.value.value, ast.Name) and st.value.value.id == c:
+            alias.add(st.targets[0].id)
+
+    def is_class_obj(e):
+        return (isinstance(e, ast.Attribute) and isinstance(e.value, ast.Name) and e.value.id == c) or (isinstance(e, ast.Name) and e.id in alias)
+    out = []
+    for st in ast.walk(fn):
+        tgts = st.targets if isinstance(st, ast.Assign) else ([st.target] if isinstance(st, ast.AugAssign) else [])
+        for t in tgts:
+            if isinstance(t, ast.Subscript) and is_class_obj(t.value):
+                out.append(st)
+            if isinstance(t, ast.Attribute) and isinstance(t.value, ast.Name) and t.value.id == c:
+                out.append(st)
+        if isinstance(st, ast.Expr) and isinstance(st.value, ast.Call) and isinstance(st.value.func, ast.Attribute) and is_class_obj(st.value.func.value) \
+                and st.value.func.attr in ('update', 'append', 'extend', 'pop', 'clear', 'setdefault', 'insert', 'remove', '__setitem__'):
+            out.append(st)
+    return out
+
+
+def check_class_state(ctx, rep, rule: str, only: Callable = None) -> int:
+    """no from_json (or other classmethod factory) of the package changes class-level state"""
+    from .loader import AnalysisError
+    t = ast.parse(CLASS_STATE_POSITIVE).body[0]
+    got = [len(class_state_mutations(f)) for f in t.body if isinstance(f, ast.FunctionDef)]
+    if got != [1, 0]:
+        raise AnalysisError(f"class-state self-check: embedded examples give {got}")
+    n = 0
+    for m in ctx.prog.modules.values():
+        if only is not None and not only(m):
+            continue
+        for cname, cnode in m.classes.items():
+            for fn in cnode.body:
+                if not isinstance(fn, ast.FunctionDef) or not any(ast.unparse(d) == 'classmethod' for d in fn.decorator_list):
+                    continue
+                n += 1
+                muts = class_state_mutations(fn)
+                rep.check(rule, f"{m.name.replace('torchtree.', '')}.{cname}.{fn.name}::leaves-the-class-unchanged", not muts, where(m, muts[0] if muts else fn),
+                          {'mutations': [norm_text(x)[:60] for x in muts]},
+                          f"{cname}.{fn.name} changes an object that hangs off the class (`{norm_text(muts[0])[:60] if muts else ''}`): a value parsed from one specification stays "
+                          f"there and becomes the default of every object built afterwards in the same process")
+    return n
